@@ -282,4 +282,25 @@ PROPS = {
         level_note="Any number of peers and clock values.",
         explanation="step contract of the reconnect loop + DPR handler contract.",
     ),
+    "C14": dict(
+        specs=["packer", "avp", "avp_types", "avp_grouped", "base", "node_model", "peer", "helpers", "c20", "family", "node", "c13", "c14"],
+        ground=[], replay=replay.generic,
+        trusted_base=["queue / thread models: Queue.put/get raise only queue.Full / queue.Empty; Thread.start may raise RuntimeError"],
+        assumptions=COMMON_ASSUME + [
+            "NOT DECIDED: the I/O loop Node._handle_connections (error branches of recv/send/accept) and the clause 'a peer that "
+            "connects afterwards is served exactly as on a fresh node' for arbitrary schedules - only the per-thread-target "
+            "'raises nothing' contracts, the slot accounting and the table restoration of C13 are proved",
+            "precondition-free abstractions of Application.send_answer / generate_answer (may raise anything)",
+            "user handle_request may return an answer, return None or raise anything (behavioural contract)",
+            "connection message handler = Node._receive_message (proved to raise nothing); os.write to the interrupt pipe "
+            "does not raise while the node lives"],
+        level_text="Deductive proof of `raises: nothing` for the thread targets PeerConnection.work_read_queue, "
+                   "Node._receive_message (the handler it calls), ThreadingApplication._wait_for_recv_msg, _wait_for_resp_msg and "
+                   "the per-request worker _process_recv_msg, with the user handler assumed to return anything or raise "
+                   "anything and send_answer assumed to raise anything; plus slot accounting: the worker hands exactly one "
+                   "item to the response queue on every path, the response consumer makes at most one slot release per item, "
+                   "and a slot taken by the receive consumer goes to a started worker or is released.",
+        level_note="Per-thread sequential contracts; liveness and cross-thread schedules are not decided.",
+        explanation="raises-nothing and slot-accounting contracts on the thread targets.",
+    ),
 }
